@@ -18,7 +18,7 @@ def M(shards, budget, floors, required, rule, assumptions=(), exhaustive=False):
 META = {}
 
 META["C01"] = M(
-    shards={"quick": 16, "thorough": 64}, budget={"quick": 45, "thorough": 800},
+    shards={"quick": 16, "thorough": 64}, budget={"quick": 120, "thorough": 1200},
     floors={"quick": {"evals": 8000, "distinct": 800}, "thorough": {"evals": 400000, "distinct": 40000}},
     required=["matvec", "matmat", "to_dense", "generic-dense", "product-dtype", "op-dtype", "shape"],
     rule="random operator-expression trees (depth 0-4) over all operator kinds, leaf dtypes f4/f8/c8/c16 (uniform or mixed), "
@@ -28,7 +28,7 @@ META["C01"] = M(
          "operand dtype different from the operator's")
 
 META["C02"] = M(
-    shards={"quick": 16, "thorough": 64}, budget={"quick": 45, "thorough": 800},
+    shards={"quick": 16, "thorough": 64}, budget={"quick": 120, "thorough": 1200},
     floors={"quick": {"evals": 20000, "distinct": 800}, "thorough": {"evals": 1500000, "distinct": 40000}},
     required=["tower-dense", "tower-right", "tower-left-vec", "tower-left-mat", "left-product", "involution"],
     rule="random operator-expression trees (as C01) plus truly self-adjoint / PSD / unitary leaves declared as such (real and "
@@ -37,8 +37,8 @@ META["C02"] = M(
          "matrix, shape, dtype and annotations; distinct = canonical structure + towers + operand dtype")
 
 META["C03"] = M(
-    shards={"quick": 16, "thorough": 64}, budget={"quick": 45, "thorough": 800},
-    floors={"quick": {"evals": 12000, "distinct": 1500}, "thorough": {"evals": 600000, "distinct": 60000}},
+    shards={"quick": 16, "thorough": 64}, budget={"quick": 120, "thorough": 1200},
+    floors={"quick": {"evals": 8000, "distinct": 1500}, "thorough": {"evals": 600000, "distinct": 60000}},
     required=["value", "dtype", "shape", "result-kind", "product", "evaluates", "mismatch-rejected"],
     rule="random algebraic expressions (depth 1-5) over {+,-,neg,c*,*c,/c,c/,@,kron,kronsum,block_diag,sum(),lazify,densify,"
          "no_dispatch} applied to generated operator trees and plain arrays, scalars of type int/float/complex/numpy scalar/0-d "
@@ -46,7 +46,7 @@ META["C03"] = M(
          "mismatched operand pairs that must raise; distinct = canonical expression structure (ops, kinds, shapes, dtypes, scalar types)")
 
 META["C04"] = M(
-    shards={"quick": 16, "thorough": 32}, budget={"quick": 100, "thorough": 900},
+    shards={"quick": 16, "thorough": 32}, budget={"quick": 400, "thorough": 1500},
     floors={"quick": {"evals": 30000, "distinct": 30000}, "thorough": {"evals": 150000, "distinct": 150000}},
     required=["lookup"],
     rule="complete enumeration of the lattice (function x operator kind or ordered pair of kinds x declared annotation in "
@@ -57,7 +57,7 @@ META["C04"] = M(
     exhaustive=True)
 
 META["C05"] = M(
-    shards={"quick": 16, "thorough": 64}, budget={"quick": 45, "thorough": 800},
+    shards={"quick": 16, "thorough": 64}, budget={"quick": 120, "thorough": 1200},
     floors={"quick": {"evals": 6000, "distinct": 1500}, "thorough": {"evals": 300000, "distinct": 50000}},
     required=["annotation-true", "routine-output-annotation-true", "created-operator-annotation-true",
               "wrapper-same-action", "wrapper-leaves-argument-alone", "isa-consistent"],
@@ -69,7 +69,7 @@ META["C05"] = M(
          "annotation tested on the matrix (symmetry, eigenvalue sign, orthonormality); distinct = canonical structure")
 
 META["C06"] = M(
-    shards={"quick": 16, "thorough": 64}, budget={"quick": 50, "thorough": 800},
+    shards={"quick": 16, "thorough": 64}, budget={"quick": 120, "thorough": 1200},
     floors={"quick": {"evals": 4000, "distinct": 600}, "thorough": {"evals": 200000, "distinct": 30000}},
     required=["inv-product", "solve", "inv-dense", "inv-transpose", "inv-left-product", "auto-switch-solve", "solve-uses-the-requested-algorithm"],
     rule="well-conditioned (cond <= 300, by construction and re-checked on the reference) invertible operator trees over every kind "
@@ -79,7 +79,7 @@ META["C06"] = M(
          "the path's own error bound; plus both sides of the 10^6-entry Auto switch (n=999, 1001); distinct = structure+alg+rhs")
 
 META["C07"] = M(
-    shards={"quick": 16, "thorough": 64}, budget={"quick": 45, "thorough": 800},
+    shards={"quick": 16, "thorough": 64}, budget={"quick": 120, "thorough": 1200},
     floors={"quick": {"evals": 8000, "distinct": 800}, "thorough": {"evals": 300000, "distinct": 30000}},
     required=["logabs", "sign", "sign-unit-modulus", "det-reconstructed", "logdet", "sign-real-pm1"],
     rule="non-singular well-conditioned operator trees (products of square factors, Kronecker with unequal factor sizes, BlockDiag "
@@ -90,7 +90,7 @@ META["C07"] = M(
          "distinct = structure + algorithm pair")
 
 META["C08"] = M(
-    shards={"quick": 16, "thorough": 64}, budget={"quick": 45, "thorough": 800},
+    shards={"quick": 16, "thorough": 64}, budget={"quick": 120, "thorough": 1200},
     floors={"quick": {"evals": 4000, "distinct": 1500}, "thorough": {"evals": 150000, "distinct": 50000}},
     required=["diag", "trace", "structural-vs-generic", "default-stays-exact"],
     rule="square operator trees over Dense, Identity, Diagonal, ScalarMul, Sum, BlockDiag with multiplicities, Kronecker/KronSum, "
@@ -101,7 +101,7 @@ META["C08"] = M(
          "compared with the generic probing of the same operator; distinct = structure + k + alg")
 
 META["C09"] = M(
-    shards={"quick": 16, "thorough": 64}, budget={"quick": 50, "thorough": 800},
+    shards={"quick": 16, "thorough": 64}, budget={"quick": 120, "thorough": 1200},
     floors={"quick": {"evals": 2500, "distinct": 1000}, "thorough": {"evals": 60000, "distinct": 25000}},
     required=["action", "sqrt-twice-is-A", "pow-1-is-inverse", "integer-power-is-repeated-product", "zero-column-maps-to-zero"],
     rule="operators with controlled spectrum (Hermitian positive definite declared PSD, singular PSD for exp, general with "
@@ -113,7 +113,7 @@ META["C09"] = M(
          "distinct = structure + function + exponent + algorithm + iteration cap + operand rank")
 
 META["C10"] = M(
-    shards={"quick": 16, "thorough": 64}, budget={"quick": 45, "thorough": 800},
+    shards={"quick": 16, "thorough": 64}, budget={"quick": 120, "thorough": 1200},
     floors={"quick": {"evals": 6000, "distinct": 1200}, "thorough": {"evals": 150000, "distinct": 25000}},
     required=["selection", "residual", "count", "independent", "orthonormal-for-self-adjoint", "eigmax", "eigmin"],
     rule="square operators with simple spectra of distinct magnitudes (relative gaps >= 0.05): self-adjoint definite and "
@@ -124,7 +124,7 @@ META["C10"] = M(
          "selection test against the reference spectrum; eigmax/eigmin likewise; distinct = kind+structure+k+which+alg+cap")
 
 META["C11"] = M(
-    shards={"quick": 16, "thorough": 64}, budget={"quick": 45, "thorough": 800},
+    shards={"quick": 16, "thorough": 64}, budget={"quick": 120, "thorough": 1200},
     floors={"quick": {"evals": 6000, "distinct": 500}, "thorough": {"evals": 150000, "distinct": 10000}},
     required=["L-LH-equals-A", "P-L-U-equals-A", "lower-triangular", "upper-triangular", "P-is-permutation", "structure-kept"],
     rule="well-conditioned positive-definite (cholesky) / non-singular (plu) operator trees over Dense, Identity, Diagonal (incl. "
@@ -135,7 +135,7 @@ META["C11"] = M(
          "Diagonal/ScalarMul/Identity -> no Dense); distinct = function + canonical structure")
 
 META["C12"] = M(
-    shards={"quick": 16, "thorough": 64}, budget={"quick": 50, "thorough": 800},
+    shards={"quick": 16, "thorough": 64}, budget={"quick": 120, "thorough": 1200},
     floors={"quick": {"evals": 4000, "distinct": 400}, "thorough": {"evals": 80000, "distinct": 8000}},
     required=["krylov-optimal-iterate", "iteration-cap", "product-count", "stopped-early-only-when-converged",
               "stops-as-soon-as-converged", "info-iterations", "info-errors", "zero-rhs-exact-zero", "linear-in-b",
@@ -149,7 +149,7 @@ META["C12"] = M(
          "linearity and column independence; distinct = full configuration tuple")
 
 META["C13"] = M(
-    shards={"quick": 16, "thorough": 64}, budget={"quick": 50, "thorough": 800},
+    shards={"quick": 16, "thorough": 64}, budget={"quick": 120, "thorough": 1200},
     floors={"quick": {"evals": 5000, "distinct": 250}, "thorough": {"evals": 100000, "distinct": 1500}},
     required=["minimal-residual", "not-above-initial-residual", "non-increasing-in-m", "zero-residual-at-full-degree",
               "product-count"],
@@ -162,7 +162,7 @@ META["C13"] = M(
          "counted; distinct = configuration tuple")
 
 META["C14"] = M(
-    shards={"quick": 16, "thorough": 64}, budget={"quick": 50, "thorough": 800},
+    shards={"quick": 16, "thorough": 64}, budget={"quick": 120, "thorough": 1200},
     floors={"quick": {"evals": 3000, "distinct": 300}, "thorough": {"evals": 60000, "distinct": 4000}},
     required=["orthonormal", "first-column", "T-real-symmetric-tridiagonal-nonneg", "T-is-QH-A-Q", "AQ-QT-vanishes-except-last-column",
               "spans-krylov-space", "column-count", "stops-when-exhausted", "eigenvalues-of-T-exact-after-exhaustion",
@@ -176,7 +176,7 @@ META["C14"] = M(
          "with exact eigenvalues, ascending Ritz pairs; distinct = configuration tuple")
 
 META["C15"] = M(
-    shards={"quick": 16, "thorough": 64}, budget={"quick": 50, "thorough": 800},
+    shards={"quick": 16, "thorough": 64}, budget={"quick": 120, "thorough": 1200},
     floors={"quick": {"evals": 3000, "distinct": 300}, "thorough": {"evals": 60000, "distinct": 4000}},
     required=["shapes", "first-column", "H-upper-hessenberg-nonneg-subdiagonal", "arnoldi-relation", "orthonormal-basis",
               "padding-is-zero", "beyond-n-equals-n-steps", "full-run-gives-spectrum", "no-eigenpairs-from-padding",
@@ -190,7 +190,7 @@ META["C15"] = M(
          ">= n steps against the reference spectrum (multiset match); distinct = configuration tuple")
 
 META["C16"] = M(
-    shards={"quick": 16, "thorough": 64}, budget={"quick": 50, "thorough": 800},
+    shards={"quick": 16, "thorough": 64}, budget={"quick": 120, "thorough": 1200},
     floors={"quick": {"evals": 4000, "distinct": 600}, "thorough": {"evals": 80000, "distinct": 8000}},
     required=["U-orthonormal-columns", "V-orthonormal-columns", "Sigma-nonnegative-diagonal", "U-Sigma-VH-equals-A",
               "k-largest-singular-values", "best-rank-k-approximation", "pinv-is-min-norm-least-squares", "pinv-auto-large"],
@@ -203,7 +203,7 @@ META["C16"] = M(
          "pinv's Auto switch; distinct = configuration tuple")
 
 META["C17"] = M(
-    shards={"quick": 16, "thorough": 64}, budget={"quick": 50, "thorough": 800},
+    shards={"quick": 16, "thorough": 64}, budget={"quick": 120, "thorough": 1200},
     floors={"quick": {"evals": 2000, "distinct": 300}, "thorough": {"evals": 40000, "distinct": 4000}},
     required=["same-key-bit-identical", "global-state-untouched", "rng-trace-well-bracketed", "user-stream-conserved",
               "estimator-formula", "key-advanced-between-iterations", "iteration-cap", "unbiased-within-7-sigma",
@@ -247,7 +247,7 @@ META["C19"] = M(
          "also compared with a factor-wise reference; distinct = kind x entry point x algorithm variant")
 
 META["C20"] = M(
-    shards={"quick": 16, "thorough": 64}, budget={"quick": 45, "thorough": 800},
+    shards={"quick": 16, "thorough": 64}, budget={"quick": 120, "thorough": 1200},
     floors={"quick": {"evals": 15000, "distinct": 1500}, "thorough": {"evals": 600000, "distinct": 60000}},
     required=["entries", "sub-operator-dense", "sub-operator-right-product", "sub-operator-left-product", "result-kind", "sub-operator-shape", "sub-operator-transpose", "sub-operator-reindexed"],
     rule="operator trees of every kind and nesting (as C01, clean), square / tall / wide with dimensions 1..6; index expressions "
